@@ -24,12 +24,12 @@ from . import c10
 VERSION = 757
 
 
-def execute(spec, policy, seed):
+def execute(spec, policy, seed, step_budget=60000):
     """spec: dict(users={'u2': [ops]}, thr, enc) with ops ('q'|'f', p, size) | ('disc',) | ('disc_now',)"""
     from minecraft.networking.packets import serverbound
     prof = Profile(VERSION)
     priv, der = c10.rsa_key(1024)
-    run = Run(policy=policy, seed=seed, step_budget=60000)
+    run = Run(policy=policy, seed=seed, step_budget=step_budget)
     run.grammar = not spec.get('early')     # early writers send play packets while the connection is still logging in: the
     #                                         user's doing, judged by Trace_Writer only
     info = {}
@@ -264,12 +264,14 @@ def run(chk):
     for j in range(3 if quick else 24):
         r_ = random.Random(chk.seed * 7919 + j)
         n1, n2 = r_.choice([(301, 0), (330, 25), (200, 140), (620, 0)]) if j > 0 else (320, 0)
+        if j == 1:
+            n1, n2 = 4200, 0        # far more than any plausible internal cap: nothing queued may ever be dropped
         users = {'u2': [('q', k + 1, r_.choice([3, 9])) for k in range(n1)] + [('disc',)]}
         if n2:
             users['u3'] = [('q', 1000 + k, 4) for k in range(n2)]
         spec = {'users': users, 'thr': r_.choice([None, 64]), 'enc': False}
-        pol = vsched.SequentialPolicy() if j % 2 == 0 else vsched.RandomPolicy(chk.seed * 59 + j, switch_prob=0.02)
-        run_ = execute(spec, pol, j)
+        pol = vsched.SequentialPolicy() if (j % 2 == 0 or j == 1) else vsched.RandomPolicy(chk.seed * 59 + j, switch_prob=0.02)
+        run_ = execute(spec, pol, j, step_budget=400000 if n1 > 1000 else 60000)
         chk.traces += 1
         chk.case(('burst', j))
         traces.append({'ev': writer_events(run_), 'spec': {'users': {u: len(p) for u, p in users.items()}, 'burst': True}, 'seed': 'burst%d' % j})
